@@ -342,6 +342,7 @@ type world struct {
 	dirtyUpTo uint64
 	broken    bool // the scenario left the property's domain or the harness lost sync: stop comparing
 	held      []*heldR // historical readers opened earlier and kept (review.go)
+	luQ       []luItem // ContractStorageLastUpdatedBlock answers of the current observation (lastupd.go)
 }
 
 func (w *world) legacy() bool { return !w.ch.newState }
@@ -381,6 +382,9 @@ func (w *world) ask(line string) string {
 }
 
 func (w *world) mismatch(sig string, input any, model, impl string) {
+	if model == "world-stopped" || model == "driver-error" {
+		return // the model side is gone (reported as a harness failure): there is nothing to compare
+	}
 	w.res.Mismatch(lib.Mismatch{Sig: sig, Input: map[string]any{"at": input, "replay": w.replay()}, Model: model, Impl: impl})
 }
 
@@ -1119,6 +1123,8 @@ func (w *world) observe() {
 		headClass, _, headDet = stateObs(headOf, w.node, sh, w.ch.keys)
 		w.lastUpdObs("head", uint64(w.height), headOf, readLU(headOf, w.shadow))
 	}
+
+	w.flushLU()
 
 	// --- model correspondence
 	lines := make([]string, 0, len(items)+1)
